@@ -9,6 +9,7 @@
 //   op inj      task qidx                 (buggify: quadrature #qidx of that task additionally reports GSL_ETOL)
 //   op first    task
 //   op ga_put   nuc proc dataset          (gA dataset on the simulated disk)
+//   op rfault   task read_idx             (I/O fault: EIO from the read_idx-th read issued by that task, e.g. inside its gA initialise)
 //
 // Oracles over the recorded history: (1) GSL never invokes the application's base handler while a
 // task runs (= no schedule-dependent abort); (2) each task's results are bit-identical to running
@@ -119,6 +120,7 @@ Outcome run_threads(const Plan & plan, const RunCtx & ctx)
     if (op.k == "sw") decisions.push_back({(int)op.arg(0), op.arg(1), (int)(op.arg(2) % ntasks), (int)(op.arg(3) % ntasks)});
     else if (op.k == "inj") inject.insert({(int)(op.arg(0) % ntasks), op.arg(1)});
     else if (op.k == "first") first = (int)(op.arg(0) % ntasks);
+    else if (op.k == "rfault") fs::faults().task_eio_at_read[(int)(op.arg(0) % ntasks)] = op.arg(1);
     else if (op.k == "ga_put") {
       std::string p = ga_root() + "/data/dbd_gA/v1.0/" + GA_NUC[op.arg(0) & 3] + "/" + GA_PROC[op.arg(1) & 1] + "/tab_ocdf.data";
       fs::put(p, ga_dataset(GA_SETS[(size_t)(op.arg(2) % 3)]));
@@ -129,6 +131,8 @@ Outcome run_threads(const Plan & plan, const RunCtx & ctx)
   std::vector<TaskLog> conc((size_t)ntasks);
   std::vector<std::function<void()>> bodies;
   for (int t = 0; t < ntasks; t++) bodies.push_back([&plan, t, &conc]() { task_body(plan, t, conc[(size_t)t]); });
+  fs::begin_op();
+  i64 eio0 = fs::stats().read_eio;
   std::string tsan_cls, tsan_sig, tsan_detail;
 #if defined(SIM_FLAVOUR_tsan)
   // ThreadSanitizer appends its reports to <san_dir>/log.<pid> as it finds them (halt_on_error=0)
@@ -158,6 +162,7 @@ Outcome run_threads(const Plan & plan, const RunCtx & ctx)
     else out.ctr["diag_tsan_report_outside_sut"]++;
   }
 #endif
+  out.ctr["fault_read_eio_in_task_fired"] += fs::stats().read_eio - eio0;
   out.ctr["sched_steps"] += cr.steps;
   out.ctr["sched_switches"] += cr.switches;
   out.ctr["decisions_fired"] += cr.decisions_fired;
@@ -186,6 +191,7 @@ Outcome run_threads(const Plan & plan, const RunCtx & ctx)
       if (k == t) one.push_back([&plan, t, &solo]() { task_body(plan, t, solo[(size_t)t]); });
       else one.push_back([]() {});
     }
+    fs::begin_op();
     sched::Result sr = sched::run(one, {}, t, inject, MAX_STEPS);
     solo_h0 += sr.h0_calls;
     out.ctr["sched_steps"] += sr.steps;
@@ -267,6 +273,7 @@ Plan gen_threads(u64 seed, u64 idx, const RunCtx & ctx)
     }
   }
   if (any_ga) for (int n = 0; n < 4; n++) for (int pr = 0; pr < 2; pr++) if (r.chance(0.8)) { Op o; o.k = "ga_put"; o.a = {n, pr, (i64)r.below(3)}; p.ops.push_back(o); }
+  if (any_ga && r.chance(0.4)) { Op o; o.k = "rfault"; o.a = {(i64)r.below((u64)nt), r.range(0, 3)}; p.ops.push_back(o); }
   { Op f; f.k = "first"; f.a = {(i64)r.below((u64)nt)}; p.ops.push_back(f); }
   // buggify: injected tolerance misses on the tasks' own quadrature timelines
   std::vector<std::pair<int, i64>> inj;
@@ -275,9 +282,16 @@ Plan gen_threads(u64 seed, u64 idx, const RunCtx & ctx)
     for (int i = 0; i < k; i++) { i64 q = (i64)r.below((u64)quads[(size_t)t]); inj.push_back({t, q}); Op o; o.k = "inj"; o.a = {t, q}; p.ops.push_back(o); }
   }
   // schedules: three strategies
-  u64 strat = r.below(10);
+  u64 strat = r.below(11);
   auto other = [&](int t) { return (int)((t + 1 + (int)r.below((u64)(nt - 1))) % nt); };
-  if (strat < 3) {
+  if (strat == 10) {
+    // dense: many switches spread over each task's whole timeline (fine-grained interleaving of draws and quadratures)
+    for (int from = 0; from < nt; from++) {
+      i64 span = 60 + quads[(size_t)from] * 8;
+      int k = (int)r.range(8, 24);
+      for (int i = 0; i < k; i++) { Op o; o.k = "sw"; o.a = {0, 1 + (i64)r.below((u64)span), from, other(from)}; p.ops.push_back(o); }
+    }
+  } else if (strat < 3) {
     // uniform: a few switches at arbitrary schedule points
     int k = (int)r.range(1, 8);
     for (int i = 0; i < k; i++) {
